@@ -27,21 +27,46 @@ Print Assumptions C15_unique_live_all_schedules.
 Theorem C15_fallback_two_instances_refuted :
   exists sched,
     let s := run _ _ fstep ({| f_marks := fun _ => false; f_locks := fun _ => false |},
-                            [ {| f_inst := 0; f_cand := 7%N; f_pc := FIdle |};
-                              {| f_inst := 1; f_cand := 7%N; f_pc := FIdle |} ]) sched in
+                            [ {| f_inst := 0; f_cand := 7%N; f_faults := []; f_pc := FIdle |};
+                              {| f_inst := 1; f_cand := 7%N; f_faults := []; f_pc := FIdle |} ]) sched in
     map f_pc (snd s) = [FDone 7%N; FDone 7%N].
 Proof. exact fallback_two_instances_refuted. Qed.
 Print Assumptions C15_fallback_two_instances_refuted.
 
 (* ... and within ONE generator instance (one mutex) the fallback is safe for any number of callers, any
-   candidates and any schedule at Exists/Set granularity: no id is handed out twice *)
+   candidates, ANY pattern of failing Exists/Set calls (a failed call abandons the attempt) and any schedule at
+   Exists/Set granularity: no id is handed out twice *)
 Theorem C15_fallback_one_instance_unique :
-  forall (cands : list id) (sched : list nat),
+  forall (cands : list (id * list bool)) (sched : list nat),
   let s := run _ _ fstep ({| f_marks := fun _ => false; f_locks := fun _ => false |},
-                          map (fun c => {| f_inst := 0; f_cand := c; f_pc := FIdle |}) cands) sched in
+                          map (fun c => {| f_inst := 0; f_cand := fst c; f_faults := snd c; f_pc := FIdle |}) cands) sched in
   NoDup (flat_map f_done (snd s)).
 Proof. exact fallback_one_instance_unique. Qed.
 Print Assumptions C15_fallback_one_instance_unique.
+
+(* ... whereas treating a failing Exists as "not taken" hands a live id to a second caller of the same instance *)
+Theorem C15_fallback_lenient_exists_refuted :
+  exists sched,
+    let s := run _ _ fstep_lenient ({| f_marks := fun _ => false; f_locks := fun _ => false |},
+                            [ {| f_inst := 0; f_cand := 7%N; f_faults := []; f_pc := FIdle |};
+                              {| f_inst := 0; f_cand := 7%N; f_faults := [true]; f_pc := FIdle |} ]) sched in
+    map f_pc (snd s) = [FDone 7%N; FDone 7%N].
+Proof. exact fallback_lenient_exists_refuted. Qed.
+Print Assumptions C15_fallback_lenient_exists_refuted.
+
+(* UUID-based generators (connection / tunnel / mapping-instance ids): for ANY pattern of failing entropy draws the
+   ids handed out are pairwise distinct, provided the successful draws are (the 122-bit randomness assumption,
+   measured by the birthday run of the correspondence) — the fallback draw is really used ... *)
+Theorem C15_uuid_unique_any_entropy_faults :
+  forall (n : nat) (draws : list (option id)), NoDup (somes draws) -> NoDup (ugen false n draws).
+Proof. exact ugen_unique. Qed.
+Print Assumptions C15_uuid_unique_any_entropy_faults.
+
+(* ... whereas a fallback whose result is dropped hands out the nil UUID twice *)
+Theorem C15_uuid_dropped_fallback_refuted :
+  exists draws, NoDup (somes draws) /\ ~ NoDup (ugen true 2 draws).
+Proof. exact ugen_shadow_refuted. Qed.
+Print Assumptions C15_uuid_dropped_fallback_refuted.
 
 (* non-vacuity: concrete callers satisfy the hypothesis *)
 Theorem C15_premises_satisfiable :
